@@ -282,6 +282,17 @@ theorem reformat_upper_idempotent (c : Char) :
 theorem reformat_rna_then_dna (c : Char) (h : c ∉ "Uu".toList) :
     symconv "Uu".toList "Tt".toList (symconv "Tt".toList "Uu".toList c) = c := rna_dna c h
 
+/-- `--mingap` / `--nogap`: every row is cut by the same column mask, so the result is still an alignment (equal row
+    lengths) and no row grows -/
+theorem reformat_gap_columns (keep : List Bool) (r₁ r₂ : List Char) (h : r₁.length = r₂.length) :
+    (selectCols keep r₁).length = (selectCols keep r₂).length ∧ (selectCols keep r₁).length ≤ r₁.length :=
+  ⟨selectCols_length_eq keep r₁ r₂ h, selectCols_length_le keep r₁⟩
+
+example : (dropGapColumns false [⟨"a".toList, [], "A-C-".toList⟩, ⟨"b".toList, [], "AG--".toList⟩]).map (·.seq) =
+    ["A-C".toList, "AG-".toList] := by decide
+example : (dropGapColumns true [⟨"a".toList, [], "A-C-".toList⟩, ⟨"b".toList, [], "AG--".toList⟩]).map (·.seq) =
+    ["A".toList, "A".toList] := by decide
+
 /-- fasta → afa → fasta: the unaligned FASTA written from an ungapped aligned FASTA, read back, gives the same names and
     residues (`reformatFasta {}` of gap-free records is the identity, and write∘read = id by `fasta_read_write`) -/
 theorem reformat_roundtrip (recs : List Rec) (h : ∀ r ∈ recs, r.WF) (hg : ∀ r ∈ recs, ∀ c ∈ r.seq, isGapC c = false) :
